@@ -225,9 +225,11 @@ func (e *Epoch) resolve(name string) string {
 			t = terms[0]
 		} else {
 			t = fresh()
-			for i := range e.preds {
-				enc.axiom(sImp(e.guards[i], sEq(t, terms[i])))
+			chain := terms[len(terms)-1]
+			for i := len(terms) - 2; i >= 0; i-- {
+				chain = sIte(e.guards[i], terms[i], chain)
 			}
+			enc.axiom(sEq(t, chain))
 		}
 	case epLoop:
 		pre := e.from.get(name)
